@@ -47,7 +47,7 @@ pub fn run(tier: Tier, replay: Option<String>) -> i32 {
             c.seed = j["seed"].as_u64().unwrap_or(1);
         }
     }
-    c.rule = "per expansion and direction: a 40-byte session key and a sequence of 1..16 written messages drawn by proptest from a pool of the library's own encodings (all message types, small and large, compressed ones, for Wrath server bodies on both sides of the 2/3-byte header boundary); crypto pairs come from wow_srp's public handshake. Oracle: ciphertext has the plaintext's length and differs from it only inside the header byte ranges computed from the plaintext; the peer's read_encrypted (sync, tokio, async-std) returns the plain reader's messages; one more probe message after the sequence still decrypts; sync/tokio/async-std encrypted writers emit identical bytes from equal cipher states; the typed expect_*_message_encryption helpers agree for the representative set. Non-trivial = sequence of >= 2 messages; distinct = (endpoint, flavors, message-name sequence).".into();
+    c.rule = "per expansion and direction: a 40-byte session key and a sequence of 1..16 written messages drawn by proptest from a pool of the library's own encodings (all message types, small and large, compressed ones, for Wrath server bodies on both sides of the 2/3-byte header boundary); crypto pairs come from wow_srp's public handshake; before that, every message of the pool once through each of the three encrypted writers and the decrypting reader of the same flavour. Oracle: ciphertext has the plaintext's length and differs from it only inside the header byte ranges computed from the plaintext; the peer's read_encrypted (sync, tokio, async-std) returns the plain reader's messages; one more probe message after the sequence still decrypts; sync/tokio/async-std encrypted writers emit identical bytes from equal cipher states; the typed expect_*_message_encryption helpers agree for the representative set. Non-trivial = sequence of >= 2 messages; distinct = (endpoint, flavors, message-name sequence).".into();
     c.assume("wow_srp's header cipher is the reference for what 'encrypted header' means; the random seeds of its handshake do not influence the cipher");
     let seed = c.seed;
     let typed_sets = typed::all();
@@ -77,6 +77,55 @@ pub fn run(tier: Tier, replay: Option<String>) -> i32 {
         let n = pool.frames.len();
         let big: Vec<usize> = (0..n).filter(|i| pool.frames[*i].1.len() > 0x7FF0).collect();
         let label = ep.label();
+        // every message of the pool once through each of the three encrypted writers (their dispatch tables have one arm
+        // per message and flavour): [message, probe], read back by the decrypting reader of the same flavour
+        {
+            let key = key_from(&(0..40u64).map(|i| (vcommon::mix(seed, 0xC05 + i) >> 16) as u8).collect::<Vec<u8>>());
+            let probe = pool.frames[0].1.clone();
+            let mut reported: std::collections::BTreeSet<String> = std::collections::BTreeSet::new();
+            for i in 0..n {
+                let (name, frame, debug) = &pool.frames[i];
+                if frame.len() > 0x10_0000 {
+                    continue;
+                }
+                let frames = vec![frame.clone()];
+                let ranges = header_ranges(ep.ns(), dir, &frames.iter().collect::<Vec<_>>());
+                let mut ciphers: Vec<Option<Vec<u8>>> = Vec::new();
+                for fl in Flavor::ALL {
+                    c.eval();
+                    c.count("each_message_through_each_writer");
+                    c.nontrivial(vcommon::fnv(format!("{}|each|{}|{}", label, fl.name(), name).as_bytes()));
+                    let cyc = ep.encrypted_cycle(&key, &frames, fl, fl, Some(&probe)).expect("world endpoint");
+                    let verdict: Result<(), String> = (|| {
+                        let cipher = cyc.cipher.as_ref().map_err(|m| format!("encrypted-write|{}", m))?;
+                        if cipher.len() != frame.len() {
+                            return Err(format!("cipher-length|ciphertext {} bytes, plaintext {}", cipher.len(), frame.len()));
+                        }
+                        if let Some(p) = cipher.iter().zip(frame.iter()).enumerate().find(|(p, (a, b))| a != b && !ranges.iter().any(|(s, e)| p >= s && p < e)) {
+                            return Err(format!("cipher-differs-outside-header|byte {} differs outside the header ranges {:?}", p.0, ranges));
+                        }
+                        match cyc.read_back.first() {
+                            Some(Outcome::Ok { debug: d, consumed, .. }) if d == debug && *consumed == frame.len() && cyc.read_back.len() == 1 => {}
+                            other => return Err(format!("decrypt-rejected|{} does not come back: {}", name, other.map(|o| o.short()).unwrap_or_default())),
+                        }
+                        if cyc.probe_ok == Some(false) {
+                            return Err("cipher-desynchronised|the probe message after it does not decrypt".into());
+                        }
+                        Ok(())
+                    })();
+                    ciphers.push(cyc.cipher.as_ref().ok().cloned());
+                    if let Err(msg) = verdict {
+                        let (kind, detail) = msg.split_once('|').unwrap_or((&msg, ""));
+                        if reported.insert(format!("{}:{}", fl.name(), kind)) {
+                            c.fail(&format!("c05:{}:{}:{}", label, kind, fl.name()), &format!("{} through the {} encrypted writer: {}", name, fl.name(), detail), json!({"endpoint": label, "key": vcommon::hex(&key), "writer": fl.name(), "reader": fl.name(), "probe": pool.frames[0].0, "messages": [name], "frames": [vcommon::hex_short(frame)]}));
+                        }
+                    }
+                }
+                if ciphers.iter().any(|x| x != &ciphers[0]) && reported.insert("writer-flavors-differ".into()) {
+                    c.fail(&format!("c05:{}:writer-flavors-differ", label), &format!("the three encrypted writers emit different bytes for {}", name), json!({"endpoint": label, "key": vcommon::hex(&key), "messages": [name], "frames": [vcommon::hex_short(frame)]}));
+                }
+            }
+        }
         let strat = (prop::collection::vec(any::<u8>(), 40), prop::collection::vec((0..n, any::<bool>()), 1..=16), 0usize..3, 0usize..3, 0..n);
         let cc = std::cell::RefCell::new(&mut c);
         let fail = vcommon::prop_search(seed, 500 + ei as u64, tier.pick(500, 20_000), &strat, |(key, idx, wf, rf, probe), counting| {
